@@ -1,0 +1,210 @@
+//go:build verif
+
+// Contracts of the encoder (see zz_verif_contracts.go for the format).  Comment-only file.
+
+package hessian
+
+// ---------------------------------------------------------------- reflection helpers
+
+//@ func UnpackPtr
+//@   pure
+//@   defines R.unpackPtr(v)
+//@   loop 1 invariant [C16:unpack] true
+//@   ensures [C16,C13:unpack-not-ptr] R.kind(result) != K.Ptr
+
+//@ func UnpackPtrValue
+//@   pure
+//@   defines R.unpackPtrValue(v)
+//@   loop 1 invariant [C16:unpack] true
+//@   ensures [C16,C13:unpackvalue] R.kind(result) != K.Ptr || !R.isValid(R.elem(result))
+
+//@ func UnpackPtrType
+//@   pure
+//@   defines R.unpackPtrType(typ)
+//@   loop 1 invariant [C16:unpack] true
+//@   ensures [C16,C13:unpacktype] R.tKind(result) != K.Ptr
+
+//@ func TypeName
+//@   pure
+//@   defines R.typeName(t)
+//@   ensures [C16,C02:typename] result == ite(R.tName(t) == "", R.tString(t), R.tName(t))
+
+//@ func arrayRootElemName
+//@   pure
+//@   defines R.rootElemName(arrayName)
+//@   ensures [C02:rootname-total] true
+
+//@ func lowerName
+//@   requires len(name) > 0
+//@   pure
+//@   defines R.lowerName(name)
+//@   ensures [C02,C05:lower-first] err == nil && len(result0) == len(name) && result0[0] == ite('A' <= name[0] && name[0] <= 'Z', name[0] + 32, name[0])
+
+//@ func capitalizeName
+//@   requires len(name) > 0
+//@   pure
+//@   defines R.capName(name)
+//@   ensures [C05:cap-first] len(result) == len(name) && result[0] == ite('a' <= name[0] && name[0] <= 'z', name[0] - 32, name[0])
+
+// ---------------------------------------------------------------- leaf writers
+// @W: some Write returned an error or a short count; @E: an error value was created;
+// @tr: level-local event trace; @opens: number of container-opening tags written so far.
+
+//@ func (*Encoder).writeBytes
+//@   assigns @out, @W, @nwrites, @tr
+//@   sets @tr = snoc(old(@tr), tokenof(bytes))
+//@   ensures [C15:W] (@W && !old(@W)) ==> err != nil
+
+//@ func (*Encoder).writeBT
+//@   requires len(bs) == 1
+//@   assigns @out, @W, @nwrites, @tr, @opens
+//@   sets @tr = snoc(old(@tr), TByte(bs[0]))
+//@   sets @opens = old(@opens) + ite(G.opens(bs[0]), 1, 0)
+//@   ensures [C15:W] (@W && !old(@W)) ==> err != nil
+
+//@ func (*Encoder).writeInt
+//@   assigns @out, @W, @nwrites, @tr
+//@   sets @tr = snoc(old(@tr), TInt(value))
+//@   ensures [C15:W] (@W && !old(@W)) ==> err != nil
+
+//@ func (*Encoder).writeLong
+//@   assigns @out, @W, @nwrites, @tr
+//@   sets @tr = snoc(old(@tr), TLong(value))
+//@   ensures [C15:W] (@W && !old(@W)) ==> err != nil
+
+//@ func (*Encoder).writeDouble
+//@   assigns @out, @W, @E, @nwrites, @tr
+//@   sets @tr = snoc(old(@tr), TDouble(value))
+//@   ensures [C15:W] (@W && !old(@W)) ==> err != nil
+//@   ensures [C13:E] (@E && !old(@E)) ==> err != nil
+
+//@ func (*Encoder).writeBoolean
+//@   assigns @out, @W, @nwrites, @tr
+//@   sets @tr = snoc(old(@tr), TBool(value))
+//@   ensures [C15:W] (@W && !old(@W)) ==> err != nil
+
+//@ func (*Encoder).writeBinary
+//@   assigns @out, @W, @nwrites, @tr
+//@   sets @tr = snoc(old(@tr), TBin(value))
+//@   ensures [C15:W] (@W && !old(@W)) ==> err != nil
+
+//@ func (*Encoder).writeString
+//@   assigns @out, @W, @nwrites, @tr
+//@   sets @tr = snoc(old(@tr), TStr(value))
+//@   ensures [C15:W] (@W && !old(@W)) ==> err != nil
+
+// ---------------------------------------------------------------- references (C04)
+// @clashes: registrations skipped because the address was already registered with another kind.
+// Invariant INV_enc of every structural writer:  mapsize(e.refMap) + @clashes == @opens.
+
+//@ func (*Encoder).writeRef
+//@   assigns @out, @W, @nwrites, @tr, @opens
+//@   ensures [C15:W] (@W && !old(@W)) ==> err != nil
+//@   ensures [C02,C04:ref-production] err == nil ==> @tr == G.ref(old(@tr), index) && @opens == old(@opens)
+
+//@ func (*Encoder).checkEncodeRefMap
+//@   requires e.refMap != nil
+//@   assigns mapof(e.refMap), @clashes
+//@   loop 1 invariant [C04:ref-walk] true
+//@   let had  = old(maphas(e.refMap, addr))
+//@   let same = had && old(mapget(e.refMap, addr)).kind == kind
+//@   sets @clashes = old(@clashes) + ite(had && !same, 1, 0)
+//@   proves [C04:ref-found]     result1 == same && (same ==> result0 == old(mapget(e.refMap, addr)).index)
+//@   proves [C04:ref-register]  !had ==> mapsize(e.refMap) == old(mapsize(e.refMap)) + 1 && maphas(e.refMap, addr) && mapget(e.refMap, addr).index == old(mapsize(e.refMap)) && mapget(e.refMap, addr).kind == kind
+//@   proves [C04:ref-unchanged] had ==> mapsize(e.refMap) == old(mapsize(e.refMap))
+//@   proves [C04:no-kind-clash]  @clashes == old(@clashes)
+//@   ensures [C04:ref-count]     mapsize(e.refMap) + @clashes == old(mapsize(e.refMap)) + old(@clashes) + ite(result1, 0, 1)
+
+// ---------------------------------------------------------------- class definitions and objects (C02, C05)
+
+//@ func (*Encoder).existClassDef
+//@   pure
+//@   loop 1 invariant [C02:exist-index] 0 <= i && i <= len(e.clsDefList)
+//@   ensures [C02,C05:exist-range] result1 ==> 0 <= result0 && result0 < len(e.clsDefList) && e.clsDefList[result0].FullClassName == clsName
+
+//@ func (*Encoder).writeClsDef
+//@   assigns @out, @W, @E, @nwrites, @tr, @opens, e.clsDefList
+//@   loop 1 invariant [C15,C02:clsdef-fields] 0 <= i && i <= len(fldList) && (@W ==> old(@W)) && (@E ==> old(@E)) && @opens == old(@opens) && len(fldList) == R.tNumField(typ)
+//@   loop 1 invariant [C02:clsdef-trace] @tr == G.fieldNames(snoc(snoc(snoc(old(@tr), TByte('C')), TStr(clsName)), TInt(int32(R.tNumField(typ)))), typ, i)
+//@   ensures [C15:W] (@W && !old(@W)) ==> err != nil
+//@   ensures [C13:E] (@E && !old(@E)) ==> err != nil
+//@   ensures [C02,C05:clsdef-production] err == nil ==> @tr == G.clsDef(old(@tr), clsName, typ) && @opens == old(@opens)
+//@   ensures [C02,C05:clsdef-registered] err == nil ==> result0 == len(old(e.clsDefList)) && len(e.clsDefList) == len(old(e.clsDefList)) + 1 && e.clsDefList[result0].FullClassName == clsName
+
+//@ func (*Encoder).writeObject
+//@   requires e.nameMap != nil && e.refMap != nil
+//@   requires mapsize(e.refMap) + @clashes == @opens
+//@   assigns @out, @W, @E, @nwrites, @tr, @opens, @clashes, @lastwriter, e.clsDefList, mapof(e.refMap), mapof(e.nameMap)
+//@   sets @lastwriter = 3
+//@   let gvv    = R.unpackPtrValue(R.valueOf(data))
+//@   let gtyp   = R.typeOf(gvv)
+//@   let isDate = istype(R.iface(gvv), "time.Time")
+//@   let isRef  = @tr == G.ref(old(@tr), int64(ti.v(last(@tr))))
+//@   let base   = ite(length < len(old(e.clsDefList)), old(@tr), G.clsDef(old(@tr), clsName, gtyp))
+//@   loop 1 invariant [C15,C13:flags-loop] 0 <= i && i <= R.numField(gvv) && (@W ==> old(@W)) && (@E ==> old(@E))
+//@   loop 1 invariant [C02,C05:object-fields] @tr == G.fieldVals(G.instTag(base, length), gvv, i)
+//@   loop 1 invariant [C04:inv-ordinals] mapsize(e.refMap) + @clashes == @opens
+//@   ensures [C15:W] (@W && !old(@W)) ==> err != nil
+//@   ensures [C13:E] (@E && !old(@E)) ==> err != nil
+//@   ensures [C02,C10:object-date]       err == nil && !isRef && isDate ==> @tr == snoc(old(@tr), TDate(i.time(R.iface(gvv))))
+//@   proves [C02,C05:object-production] err == nil && !isRef && !isDate ==> @tr == G.fieldVals(G.instTag(base, length), gvv, R.numField(gvv))
+//@   proves [C02,C05:object-class-name] err == nil && !isRef && !isDate && length < len(old(e.clsDefList)) ==> old(e.clsDefList[length].FullClassName) == clsName
+//@   ensures [C04:inv-ordinals]          err == nil ==> mapsize(e.refMap) + @clashes == @opens
+
+//@ func (*Encoder).writeList
+//@   requires e.nameMap != nil && e.refMap != nil
+//@   requires mapsize(e.refMap) + @clashes == @opens
+//@   assigns @out, @W, @E, @nwrites, @tr, @opens, @clashes, @lastwriter, e.clsDefList, mapof(e.refMap), mapof(e.nameMap)
+//@   sets @lastwriter = 1
+//@   let gvv    = R.unpackPtrValue(R.valueOf(data))
+//@   let tn     = R.typeName(R.unpackPtrType(R.typeOf(gvv)))
+//@   let typed  = old(maphas(e.nameMap, tn)) && R.rootElemName(tn) != "interface {}"
+//@   let cnt    = R.len(gvv)
+//@   let hdr    = ite(typed, G.listHdrTyped(old(@tr), old(mapget(e.nameMap, tn)), cnt), G.listHdrUntyped(old(@tr), cnt))
+//@   let isRef  = @tr == G.ref(old(@tr), int64(ti.v(last(@tr))))
+//@   loop 1 invariant [C15,C13:flags-loop] 0 <= i && i <= cnt && (@W ==> old(@W)) && (@E ==> old(@E))
+//@   loop 1 invariant [C02,C01:list-elems] @tr == G.elems(hdr, gvv, i)
+//@   loop 1 invariant [C04:inv-ordinals] mapsize(e.refMap) + @clashes == @opens
+//@   ensures [C15:W] (@W && !old(@W)) ==> err != nil
+//@   ensures [C13:E] (@E && !old(@E)) ==> err != nil
+//@   ensures [C02,C09:list-bytes]            err == nil && istype(data, "[]byte") ==> @tr == snoc(old(@tr), TBin(i.bytes(data)))
+//@   ensures [C02,C01,C13:list-production]   err == nil && !istype(data, "[]byte") && !isRef ==> @tr == G.elems(hdr, gvv, cnt)
+//@   ensures [C04:inv-ordinals]              err == nil ==> mapsize(e.refMap) + @clashes == @opens
+
+//@ func (*Encoder).writeMap
+//@   requires e.nameMap != nil && e.refMap != nil
+//@   requires mapsize(e.refMap) + @clashes == @opens
+//@   assigns @out, @W, @E, @nwrites, @tr, @opens, @clashes, @lastwriter, e.clsDefList, mapof(e.refMap), mapof(e.nameMap)
+//@   sets @lastwriter = 2
+//@   loop 1 invariant [C15,C13:flags-loop] 0 <= i && (@W ==> old(@W)) && (@E ==> old(@E))
+//@   loop 1 invariant [C04:inv-ordinals] mapsize(e.refMap) + @clashes == @opens
+//@   loop 2 invariant [C15,C13:flags-loop] 0 <= i && (@W ==> old(@W)) && (@E ==> old(@E))
+//@   loop 2 invariant [C04:inv-ordinals] mapsize(e.refMap) + @clashes == @opens
+//@   ensures [C15:W] (@W && !old(@W)) ==> err != nil
+//@   ensures [C13:E] (@E && !old(@E)) ==> err != nil
+//@   ensures [C04:inv-ordinals]  err == nil ==> mapsize(e.refMap) + @clashes == @opens
+
+//@ func (*Encoder).WriteData
+//@   requires e.nameMap != nil && e.refMap != nil
+//@   requires mapsize(e.refMap) + @clashes == @opens
+//@   assigns @out, @W, @E, @nwrites, @tr, @opens, @clashes, @lastwriter, e.clsDefList, mapof(e.refMap), mapof(e.nameMap)
+//@   summary @tr = snoc(old(@tr), TVal(data))
+//@   let rv   = R.valueOf(data)
+//@   let v    = ite(R.kind(rv) == K.Ptr, R.unpackPtr(rv), rv)
+//@   let null = data == nil || (R.kind(rv) == K.Ptr && !R.isValid(v))
+//@   let k    = R.kind(v)
+//@   ensures [C15:W] (@W && !old(@W)) ==> err != nil
+//@   ensures [C13:E] (@E && !old(@E)) ==> err != nil
+//@   ensures [C04:inv-ordinals] err == nil ==> mapsize(e.refMap) + @clashes == @opens
+//@   proves [C02,C01:kind-null]     err == nil && null ==> @tr == snoc(old(@tr), TByte('N'))
+//@   proves [C01:kind-bool]         err == nil && !null && k == K.Bool ==> @tr == snoc(old(@tr), TBool(R.bool(v)))
+//@   proves [C01,C09:kind-string]   err == nil && !null && k == K.String ==> @tr == snoc(old(@tr), TStr(R.string(v)))
+//@   proves [C07,C01:kind-int]      err == nil && !null && (k == K.Int8 || k == K.Int16 || k == K.Int32 || k == K.Int) ==> @tr == snoc(old(@tr), TInt(int32(R.int(v)))) && int64(int32(R.int(v))) == R.int(v)
+//@   proves [C07,C01:kind-uint-int] err == nil && !null && (k == K.Uint8 || k == K.Uint16) ==> @tr == snoc(old(@tr), TInt(int32(R.uint(v)))) && uint64(int32(R.uint(v))) == R.uint(v)
+//@   proves [C07,C01:kind-long]     err == nil && !null && k == K.Int64 ==> @tr == snoc(old(@tr), TLong(R.int(v)))
+//@   proves [C07,C01:kind-ulong]    err == nil && !null && (k == K.Uint || k == K.Uint32 || k == K.Uint64) ==> @tr == snoc(old(@tr), TLong(int64(R.uint(v)))) && int64(R.uint(v)) >= 0
+//@   proves [C08,C01:kind-float]    err == nil && !null && (k == K.Float32 || k == K.Float64) ==> @tr == snoc(old(@tr), TDouble(R.float(v)))
+//@   proves [C01,C02:kind-list]     err == nil && !null && (k == K.Slice || k == K.Array) ==> @lastwriter == 1
+//@   proves [C01,C02:kind-map]      err == nil && !null && k == K.Map ==> @lastwriter == 2
+//@   proves [C01,C02:kind-struct]   err == nil && !null && k == K.Struct ==> @lastwriter == 3
+//@   proves [C13:kind-unsupported]  !null && !(k == K.Bool || k == K.String || k == K.Int8 || k == K.Int16 || k == K.Int32 || k == K.Int || k == K.Uint8 || k == K.Uint16 || k == K.Int64 || k == K.Uint || k == K.Uint32 || k == K.Uint64 || k == K.Float32 || k == K.Float64 || k == K.Slice || k == K.Array || k == K.Map || k == K.Struct) ==> err != nil
